@@ -236,6 +236,7 @@ func c10build(c c10case) c10built {
 		return b
 	}
 	fmt.Fprintf(&sb, " D %s %s %d", c10timeFields(t0, c.d1904), c10timeFields(t1, c.d1904), h1900)
+	fmt.Fprintf(&sb, " I %s %d", b01(c.d1904), t0.Unix())
 	// locale rows
 	keys := map[string]bool{"": true}
 	ok := true
@@ -604,7 +605,7 @@ func c10fmt(r *Run, c c10case) (string, bool) {
 		if cf.Selected && numeric && xok {
 			xs = "X=" + hx(c10exactFixed(x, cf.Percent, cf.FracLen))
 		}
-		line = r.Op(b.op, out+" "+c10confStr(cf, numeric)+" "+xs)
+		line = r.Op(b.op, out+" "+c10confStr(cf, numeric)+" "+xs+" T=1 A=1")
 		c10lastLine = line
 		r.Stat("transcript:fmt")
 	} else {
